@@ -373,14 +373,23 @@ pub fn classify_panic(p: &str) -> String {
 
 pub fn run_scenarios(property: &str, scenarios: &[Scenario], ctx: &vcore::Ctx, rep: &mut vcore::Reporter) {
     use vcore::json;
-    for sc in scenarios {
+    let only = ctx.opt("scenario").map(|s| s.to_string());
+    for (sc_idx, sc) in scenarios.iter().enumerate() {
+        if let Some(o) = &only {
+            if &sc.name != o {
+                continue;
+            }
+        }
         let icb = Icb::new(sc.bound, (ctx.worker, ctx.workers));
         let body = (sc.make)(icb.clone());
         let mut hist: Vec<u64> = vec![0; sc.bound + 2];
         let mut viol: Vec<(String, String, String, String, usize)> = Vec::new();
         let mut n_mine = 0u64;
         let mut outcomes: std::collections::BTreeSet<String> = Default::default();
-        let deadline = ctx.deadline;
+        // fair share of the remaining wall budget, so that one large scenario cannot starve the later ones
+        let now = std::time::Instant::now();
+        let left = ctx.deadline.saturating_duration_since(now);
+        let deadline = now + left / (scenarios.len() - sc_idx) as u32;
         let res = explore(
             &icb,
             sc.max_steps,
@@ -433,7 +442,9 @@ pub fn run_scenarios(property: &str, scenarios: &[Scenario], ctx: &vcore::Ctx, r
         viol.sort_by(|a, b| (a.4, a.3.len()).cmp(&(b.4, b.3.len())));
         for (sig, exp, obs, sched, pre) in viol {
             let name = sc.name.clone();
-            rep.violation(property, "schedule", &sig, || json!({"scenario": name, "schedule": sched, "preemptions": pre}), &exp, &obs);
+            // the signature's first component names the property the violation belongs to
+            let prop = sig.split('/').next().unwrap_or(property).to_string();
+            rep.violation(&prop, "schedule", &sig, || json!({"scenario": name, "schedule": sched, "preemptions": pre}), &exp, &obs);
         }
         for _ in 0..n_mine {
             // every schedule is distinct by construction (distinct choice vectors)
@@ -472,7 +483,8 @@ pub fn replay_scenario(property: &str, scenarios: &[Scenario], case: &vcore::Val
     rep.add_transitions(a.steps as u64);
     for (sig, exp, obs) in &a.events {
         let sched = a.schedule_string();
-        rep.violation(property, "schedule", sig, || json!({"scenario": name, "schedule": sched}), exp, obs);
+        let prop = sig.split('/').next().unwrap_or(property).to_string();
+        rep.violation(&prop, "schedule", sig, || json!({"scenario": name, "schedule": sched}), exp, obs);
     }
     if let Some(p) = &a.panic {
         let cls = classify_panic(p);
